@@ -19,8 +19,8 @@ CHECKS = {
             "The same history space with monitors on every AEAD, KMS and secret-allocation call: one fresh data key per encrypt used once and wrapped once, no (key, nonce) repeated in a history (deterministic logged random source), payload only under data keys, data keys only under the partition's IK, IKs only under the SK, SK only to the KMS, and a byte-window leak scan of records, rows and log lines.", "6/C03"),
     "C04": ("model_checking", K_TECH,
             "The same history space; on every encrypt transition the named IK's age, the parent SK of every IK row written, and the time since the parent SK expired are computed from row stamps and the virtual clock, independently of the SDK's predicates.", "6/C04"),
-    "C05": ("model_checking", K_TECH,
-            "The same history space with a ghost 'revoked at' stamp per row; every encrypt more than one interval after an IK revocation (two after an SK revocation) must not use / create under the revoked key.", "6/C05"),
+    "C05": ("model_checking", K_TECH + "; deviation-bounded fault enumeration on revocation timelines",
+            "The same history space with a ghost 'revoked at' stamp per row; every encrypt more than one interval after an IK revocation (two after an SK revocation) must not use / create under the revoked key; plus timelines of a long-lived session around the interval marks with every placement of up to 2-3 failing metastore reads / KMS unwraps (a failed re-check must not be answered from the cached copy).", "6/C05"),
     "C06": ("exploration", "exhaustive enumeration of an adversarial id universe (all ordered pairs) on the real SDK",
             "All concatenations of up to 3 (thorough: 4) tokens from the naming scheme's own vocabulary as partition ids; every ordered pair (P,Q): session P must fail on Q's genuine record; with/without region suffix, two service/product pairs, per-session / shared / no key cache.", "6/C06"),
     "C07": ("exploration", "bounded-exhaustive mutation enumeration (every single-bit flip, truncation, field recombination, structural case) on the real SDK",
